@@ -958,13 +958,7 @@ class SymTable(object):
         tab = self.table()
         a = to_bv(addr, self.aw)
         if self.uf:
-            key = (self.name, self.aw, self.bw, tuple(tab))
-            f = SymTable._uf_cache.get(key)
-            if f is None:
-                f = z3.Function('T_%s_%d' % (self.name, _bi_len(SymTable._uf_cache)),
-                                z3.BitVecSort(self.aw), z3.BitVecSort(self.bw))
-                SymTable._uf_cache[key] = f
-            return SymInt.mk(f(a), False)
+            return SymInt.mk(SymTable.uf_for(tab, self.aw, self.bw)(a), False)
         # holes: real branch
         holes = [i for i, v in enumerate(tab) if v is None]
         if holes:
@@ -986,9 +980,20 @@ class SymTable(object):
         return SymInt.mk(build(0, 1 << self.aw, self.aw - 1), False)
 
     @staticmethod
+    def uf_for(tab, aw, bw):
+        """the shared uninterpreted function standing for a concrete table (keyed by content, so that the code
+        side and the reference side of an obligation use the same symbol)"""
+        key = (aw, bw, tuple(tab))
+        f = SymTable._uf_cache.get(key)
+        if f is None:
+            f = z3.Function('T%d' % _bi_len(SymTable._uf_cache), z3.BitVecSort(aw), z3.BitVecSort(bw))
+            SymTable._uf_cache[key] = f
+        return f
+
+    @staticmethod
     def uf_tables():
         """[(function, table, aw, bw)] for the table lemmas"""
-        return [(f, key[3], key[1], key[2]) for key, f in SymTable._uf_cache.items()]
+        return [(f, key[2], key[0], key[1]) for key, f in SymTable._uf_cache.items()]
 
 
 # ------------------------------------------------------------------------------------------
